@@ -8,6 +8,13 @@
 //! and a harness service whose behaviour (single / streamed / slow / failing
 //! / silent, answer size and shape) is looked up by request ID and which logs
 //! everything it produces. Virtual time (paused tokio clock).
+//!
+//! Sub-checks `dgram_hist` / `stream_hist` add histories and representations
+//! the plain ones do not have: runtime `DgramServer::reconfigure` between
+//! datagrams, other receive buffer sizes, a socket that is not ready at
+//! first, listeners whose accept future is delayed / never completes /
+//! fails, a no-op `StreamServer::reconfigure`, a pre-connect hook, and
+//! hostile messages with big question sections and the QR bit set.
 mod model;
 mod net;
 mod oracle;
@@ -17,7 +24,7 @@ use crate::engine::*;
 use crate::refimpl::wire;
 use crate::{vensure, vfail};
 use arbitrary::Unstructured;
-use domain::net::server::buf::VecBufSource;
+use domain::net::server::buf::{BufSource, VecBufSource};
 use domain::net::server::dgram::{self, DgramServer};
 use domain::net::server::middleware::cookies::CookiesMiddlewareSvc;
 use domain::net::server::middleware::edns::EdnsMiddlewareSvc;
@@ -52,9 +59,22 @@ struct UdpObs {
     calls: Vec<Call>,
     alive: bool,
     received: usize,
+    /// send attempts the socket answered with "not ready"
+    pendings: usize,
 }
 
 fn run_udp(case: &UdpCase) -> UdpObs {
+    if case.buf == UDP_BUF {
+        run_udp_with(case, VecBufSource)
+    } else {
+        run_udp_with(case, net::SizedBuf(case.buf))
+    }
+}
+
+fn run_udp_with<B>(case: &UdpCase, bufsrc: B) -> UdpObs
+where
+    B: BufSource<Output = Vec<u8>> + Send + Sync + 'static,
+{
     let shared = Arc::new(Mutex::new(Shared::default()));
     let mut settle = 0u64;
     for it in &case.items {
@@ -67,12 +87,14 @@ fn run_udp(case: &UdpCase) -> UdpObs {
     block_on_paused(async move {
         let mut cfg = dgram::Config::new();
         cfg.set_max_response_size(case.cfg);
-        let srv = Arc::new(DgramServer::with_config(net::MockSock::default(), VecBufSource, stack(sh.clone(), case.cookies), cfg));
+        let sock = net::MockSock::new(case.send_pending);
+        let srv = Arc::new(DgramServer::with_config(sock, bufsrc, stack(sh.clone(), case.cookies), cfg));
         let sock = srv.source();
         let h = tokio::spawn({
             let s = srv.clone();
             async move { s.run().await }
         });
+        let mut reconf_failed = false;
         for it in &case.items {
             if it.gap_ms > 0 {
                 tokio::time::sleep(Duration::from_millis(it.gap_ms as u64)).await;
@@ -80,16 +102,29 @@ fn run_udp(case: &UdpCase) -> UdpObs {
             let bytes = match &it.what {
                 What::Wf { req, .. } => req.bytes(),
                 What::Hostile { bytes, .. } => bytes.clone(),
+                What::Reconf { cfg } => {
+                    // everything delivered so far is received under the old
+                    // configuration, everything that follows under the new one
+                    tokio::time::sleep(Duration::from_millis(1)).await;
+                    let mut c = dgram::Config::new();
+                    c.set_max_response_size(*cfg);
+                    if srv.reconfigure(c).is_err() {
+                        reconf_failed = true;
+                    }
+                    tokio::time::sleep(Duration::from_millis(1)).await;
+                    continue;
+                }
             };
             sock.deliver(bytes, it.addr);
         }
         tokio::time::sleep(Duration::from_millis(settle + 2000)).await;
-        let alive = !h.is_finished();
+        let alive = !h.is_finished() && !reconf_failed;
         let sent = sock.sent.lock().unwrap().clone();
         let received = *sock.received.lock().unwrap();
+        let pendings = *sock.pendings.lock().unwrap();
         let _ = srv.shutdown();
         let calls = sh.lock().unwrap().calls.clone();
-        UdpObs { sent, calls, alive, received }
+        UdpObs { sent, calls, alive, received, pendings }
     })
 }
 
@@ -150,7 +185,13 @@ fn hostile_view(what: String, seen: &[u8], cfg: Option<u16>, tcp: bool) -> ReqVi
 
 fn check_udp(case: &UdpCase, obs: &UdpObs, ctx: &mut Ctx) -> CaseResult {
     vensure!(obs.alive, "udp:server-task-ended", "DgramServer::run returned before shutdown");
-    vensure!(obs.received == case.items.len(), "udp:datagrams-not-consumed", "{} datagrams delivered, the server took {}", case.items.len(), obs.received);
+    vensure!(obs.received == case.n_datagrams(), "udp:datagrams-not-consumed", "{} datagrams delivered, the server took {}", case.n_datagrams(), obs.received);
+    if case.buf != UDP_BUF {
+        ctx.class(format!("udp:recv-buf:{}", if case.buf < UDP_BUF { "smaller" } else { "larger" }));
+    }
+    if obs.pendings > 0 {
+        ctx.class("udp:send-not-ready-at-first");
+    }
     let mut by_addr: BTreeMap<SocketAddr, Vec<&[u8]>> = BTreeMap::new();
     for (a, d) in &obs.sent {
         by_addr.entry(*a).or_default().push(d);
@@ -159,20 +200,32 @@ fn check_udp(case: &UdpCase, obs: &UdpObs, ctx: &mut Ctx) -> CaseResult {
         vensure!(case.items.iter().any(|i| i.addr == *a), "udp:response-to-unknown-address", "a datagram was sent to {a}, nobody sent a request from there");
     }
     let empty: Vec<&[u8]> = vec![];
+    // a reconfiguration that changed the limit precedes this item
+    let mut reconfigured = false;
     for (n, it) in case.items.iter().enumerate() {
         let w = by_addr.get(&it.addr).unwrap_or(&empty);
         match &it.what {
+            What::Reconf { cfg } => {
+                ctx.class("udp:reconfigure");
+                if n > 0 && case.items[n - 1].cfg != *cfg || n == 0 && case.cfg != *cfg {
+                    reconfigured = true;
+                    ctx.class("udp:reconfigure:limit-changed");
+                }
+            }
             What::Wf { req, plan, sentinel } => {
                 let edns_sz = req.edns.as_ref().map(|e| e.udp);
                 let rv = ReqView {
-                    what: format!("udp request #{n} [{}] cfg={:?} plan={:?}", req.show(), case.cfg, plan),
+                    what: format!("udp request #{n} [{}] cfg={:?}{} plan={:?}", req.show(), it.cfg, if reconfigured { " (after reconfigure)" } else { "" }, plan),
                     id: Some(req.id),
                     question: Some((req.qname.clone(), req.qtype, req.qclass)),
                     has_opt: req.edns.is_some(),
-                    limit: Some(udp_limit(edns_sz, case.cfg)),
-                    no_edns_hint: case.cfg.map(|c| c as usize),
+                    limit: Some(udp_limit(edns_sz, it.cfg)),
+                    no_edns_hint: it.cfg.map(|c| c as usize),
                     tcp: false,
                 };
+                if reconfigured && req.edns.is_some() {
+                    ctx.class("udp:edns-request-after-reconfigure");
+                }
                 if req.edns.is_none() {
                     ctx.class("udp:no-edns");
                 } else {
@@ -222,14 +275,27 @@ fn check_udp(case: &UdpCase, obs: &UdpObs, ctx: &mut Ctx) -> CaseResult {
                 for t in tags {
                     ctx.class(format!("hostile:{t}"));
                 }
-                let seen = &bytes[..bytes.len().min(UDP_BUF)];
-                let rv = hostile_view(format!("hostile udp datagram #{n} {:?} [{}] cfg={:?}", tags, oracle::hex(bytes), case.cfg), seen, case.cfg, false);
+                let seen = &bytes[..bytes.len().min(case.buf)];
+                if bytes.len() > case.buf {
+                    ctx.class("hostile:cut-by-recv-buf");
+                }
+                if tags.contains(&"qr-twist") || tags.contains(&"qr-set") {
+                    if let Some(wk) = wire::walk(seen) {
+                        if wk.error.is_none() && wk.records.iter().any(|r| r.section == 3 && r.rtype == oracle::OPT && udp_limit(Some(r.class), None) > it.cfg.map(|c| c as usize).unwrap_or(usize::MAX)) {
+                            ctx.class("hostile:qr-with-opt-above-configured");
+                            if seen.len() + 11 > it.cfg.unwrap_or(u16::MAX) as usize {
+                                ctx.class("hostile:qr-with-opt-above-configured:echo-exceeds-configured");
+                            }
+                        }
+                    }
+                }
+                let rv = hostile_view(format!("hostile udp datagram #{n} {:?} [{}] cfg={:?} buf={}", tags, oracle::hex(bytes), it.cfg, case.buf), seen, it.cfg, false);
                 let calls: Vec<&Call> = obs.calls.iter().filter(|c| c.addr == it.addr).collect();
                 vensure!(calls.len() <= 1, "udp:hostile:request-dispatched-twice", "{}: the service was called {} times", rv.what, calls.len());
                 // A datagram shorter than a DNS header has no ID (and no
                 // question) a response could carry; dgram.rs documents that
                 // no response is sent in that case.
-                if bytes.len() < 12 {
+                if seen.len() < 12 {
                     ctx.class("hostile:shorter-than-header");
                     vensure!(w.is_empty() && calls.is_empty(), "udp:hostile:response-to-headerless-datagram", "{}: a datagram of {} octets (no complete header, hence no ID) was answered with {} responses (service called: {}); first: {}", rv.what, bytes.len(), w.len(), !calls.is_empty(), w.first().map(|m| oracle::hex(m)).unwrap_or_default());
                 }
@@ -264,14 +330,27 @@ fn udp_nontrivial(case: &UdpCase, ctx: &Ctx) -> bool {
 }
 
 fn show_udp(case: &UdpCase) -> String {
-    let mut s = format!("UDP cfg={:?} cookies={} ", case.cfg, case.cookies);
+    let mut s = format!("UDP cfg={:?} cookies={} buf={} send_pending={} ", case.cfg, case.cookies, case.buf, case.send_pending);
     for it in &case.items {
         match &it.what {
             What::Wf { req, plan, sentinel } => s.push_str(&format!("| +{}ms {}{} plan(delay={} {:?} target={:?} opt={}) ", it.gap_ms, if *sentinel { "SENTINEL " } else { "" }, req.show(), plan.delay_ms, plan.kind, plan.shape.target, plan.shape.opt.is_some())),
             What::Hostile { bytes, tags } => s.push_str(&format!("| +{}ms HOSTILE{:?} {} octets ", it.gap_ms, tags, bytes.len())),
+            What::Reconf { cfg } => s.push_str(&format!("| +{}ms RECONFIGURE cfg={:?} ", it.gap_ms, cfg)),
         }
     }
     s
+}
+
+fn run_dgram_hist(data: &[u8], ctx: &mut Ctx) -> CaseResult {
+    let mut u = Unstructured::new(data);
+    let case = udp_case_ext(&mut u, true);
+    ctx.sample(|| show_udp(&case));
+    let obs = run_udp(&case);
+    let r = check_udp(&case, &obs, ctx);
+    if udp_nontrivial(&case, ctx) {
+        ctx.nontrivial(&format!("{case:?}"));
+    }
+    r
 }
 
 fn run_dgram(data: &[u8], ctx: &mut Ctx) -> CaseResult {
@@ -310,9 +389,11 @@ fn run_dgram_raw(data: &[u8], ctx: &mut Ctx) -> CaseResult {
     let case = UdpCase {
         cookies,
         cfg,
+        buf: UDP_BUF,
+        send_pending: false,
         items: vec![
-            UItem { gap_ms: 0, addr: a1, what: What::Hostile { bytes: dgram, tags: vec![tag] } },
-            UItem { gap_ms: (opt >> 4 & 1) as u32, addr: a2, what: What::Wf { req: sentinel(sid, opt & 0x20 != 0), plan: Plan::default(), sentinel: true } },
+            UItem { gap_ms: 0, addr: a1, cfg, what: What::Hostile { bytes: dgram, tags: vec![tag] } },
+            UItem { gap_ms: (opt >> 4 & 1) as u32, addr: a2, cfg, what: What::Wf { req: sentinel(sid, opt & 0x20 != 0), plan: Plan::default(), sentinel: true } },
         ],
     };
     ctx.sample(|| show_udp(&case));
@@ -334,6 +415,8 @@ struct TcpObs {
     calls: Vec<Call>,
     alive: bool,
 }
+
+fn noop_hook(_: &mut tokio::io::DuplexStream) {}
 
 fn frame_of(w: &TWhat) -> Option<Vec<u8>> {
     match w {
@@ -359,19 +442,40 @@ fn run_tcp(case: &TcpCase) -> TcpObs {
             }
         }
     }
+    // a connection whose establishment takes a while is served afterwards
+    settle += case.conns.iter().map(|c| if let Accept::Delay(ms) = c.accept { ms as u64 } else { 0 }).max().unwrap_or(0);
     let sh = shared.clone();
     block_on_paused(async move {
         let (listener, tx) = net::MockListener::new();
-        let mut cc = ConnectionConfig::new();
-        cc.set_idle_timeout(Duration::from_millis(case.idle_ms));
-        cc.set_max_queued_responses(case.max_queued);
-        let mut cfg = stream::Config::new();
-        cfg.set_connection_config(cc);
-        let srv = Arc::new(StreamServer::with_config(listener, VecBufSource, stack(sh.clone(), case.cookies), cfg));
+        let mk_cfg = |max_conns: Option<usize>| {
+            let mut cc = ConnectionConfig::new();
+            cc.set_idle_timeout(Duration::from_millis(case.idle_ms));
+            cc.set_max_queued_responses(case.max_queued);
+            let mut cfg = stream::Config::new();
+            cfg.set_connection_config(cc);
+            if let Some(m) = max_conns {
+                cfg.set_max_concurrent_connections(m);
+            }
+            cfg
+        };
+        let srv = StreamServer::with_config(listener, VecBufSource, stack(sh.clone(), case.cookies), mk_cfg(None));
+        let srv = Arc::new(if case.hook { srv.with_pre_connect_hook(noop_hook) } else { srv });
         let h = tokio::spawn({
             let s = srv.clone();
             async move { s.run().await }
         });
+        let reconf_ok = Arc::new(Mutex::new(true));
+        if let Some(at) = case.reconf_at_ms {
+            let s = srv.clone();
+            let new_cfg = mk_cfg(Some(90));
+            let ok = reconf_ok.clone();
+            tokio::spawn(async move {
+                tokio::time::sleep(Duration::from_millis(at as u64)).await;
+                if s.reconfigure(new_cfg).is_err() {
+                    *ok.lock().unwrap() = false;
+                }
+            });
+        }
         let mut clients = vec![];
         let mut bufs = vec![];
         for c in &case.conns {
@@ -385,7 +489,8 @@ fn run_tcp(case: &TcpCase) -> TcpObs {
                     tokio::time::sleep(Duration::from_millis(c.start_ms as u64)).await;
                 }
                 let (client, server) = tokio::io::duplex(cap);
-                let _ = tx.send((server, c.addr));
+                let _ = tx.send((server, c.addr, c.accept));
+                let dead = c.accept.dead();
                 let (mut rd, mut wr) = tokio::io::split(client);
                 let reader = tokio::spawn(async move {
                     let mut tmp = vec![0u8; 8192];
@@ -418,7 +523,15 @@ fn run_tcp(case: &TcpCase) -> TcpObs {
                             for &s in it.splits.iter().chain(std::iter::once(&f.len())) {
                                 let s = s.min(f.len());
                                 if s > pos {
-                                    if wr.write_all(&f[pos..s]).await.is_err() {
+                                    // nobody reads on a connection the server never gets hold of;
+                                    // on the others the server reads whatever the service is doing, a
+                                    // write that makes no progress for 5 s of virtual time means that
+                                    // the server does not serve this connection (the oracle then
+                                    // reports what is missing; without the limit the scenario would
+                                    // never end)
+                                    let limit = Duration::from_millis(if dead { 50 } else { 5000 });
+                                    let res = tokio::time::timeout(limit, wr.write_all(&f[pos..s])).await.unwrap_or(Err(std::io::ErrorKind::TimedOut.into()));
+                                    if res.is_err() {
                                         break;
                                     }
                                     pos = s;
@@ -446,7 +559,7 @@ fn run_tcp(case: &TcpCase) -> TcpObs {
             keep.push(c.await.ok().flatten());
         }
         tokio::time::sleep(Duration::from_millis(settle + 2000)).await;
-        let alive = !h.is_finished();
+        let alive = !h.is_finished() && *reconf_ok.lock().unwrap();
         let conns = bufs
             .iter()
             .map(|b| {
@@ -517,7 +630,21 @@ fn check_tcp(case: &TcpCase, obs: &TcpObs, ctx: &mut Ctx) -> CaseResult {
     let empty: Vec<&[u8]> = vec![];
     for (ci, conn) in case.conns.iter().enumerate() {
         let o = &obs.conns[ci];
-        let doomed = conn.items.iter().any(|i| matches!(i.what, TWhat::Abort | TWhat::HalfClose | TWhat::Hostile { doomed: true, .. }));
+        let doomed = conn.accept.dead() || conn.items.iter().any(|i| matches!(i.what, TWhat::Abort | TWhat::HalfClose | TWhat::Hostile { doomed: true, .. }));
+        match conn.accept {
+            Accept::Ready => {}
+            Accept::Delay(_) => ctx.class("tcp:accept-delayed"),
+            Accept::Never => ctx.class("tcp:accept-never-completes"),
+            Accept::Fail => ctx.class("tcp:accept-future-fails"),
+            Accept::Refused => ctx.class("tcp:poll-accept-fails"),
+        }
+        if conn.accept.dead() {
+            // the server never had a stream to write to
+            vensure!(o.bytes.is_empty(), "tcp:octets-on-connection-never-established", "connection {ci} ({:?}): {} octets arrived: {}", conn.accept, o.bytes.len(), oracle::hex(&o.bytes));
+        }
+        if ci > 0 && case.conns[..ci].iter().any(|c| c.accept == Accept::Never && c.start_ms <= conn.start_ms) && !conn.accept.dead() {
+            ctx.class("tcp:connection-after-stalled-accept");
+        }
         let aborted = conn.items.iter().any(|i| matches!(i.what, TWhat::Abort));
         let (frames, rest) = split_frames(&o.bytes);
         if !aborted {
@@ -699,13 +826,13 @@ fn check_tcp(case: &TcpCase, obs: &TcpObs, ctx: &mut Ctx) -> CaseResult {
 }
 
 fn tcp_nontrivial(case: &TcpCase, ctx: &Ctx) -> bool {
-    ctx.classes.iter().any(|c| c == "tcp:out-of-order") || case.conns.iter().any(|c| c.items.iter().any(|i| matches!(i.what, TWhat::Hostile { .. })))
+    ctx.classes.iter().any(|c| c == "tcp:out-of-order") || case.conns.iter().any(|c| c.accept.dead() || c.items.iter().any(|i| matches!(i.what, TWhat::Hostile { .. })))
 }
 
 fn show_tcp(case: &TcpCase) -> String {
-    let mut s = format!("TCP idle={}ms queue={} cap={} cookies={} ", case.idle_ms, case.max_queued, case.cap, case.cookies);
+    let mut s = format!("TCP idle={}ms queue={} cap={} cookies={} reconfigure_at={:?} hook={} ", case.idle_ms, case.max_queued, case.cap, case.cookies, case.reconf_at_ms, case.hook);
     for (ci, c) in case.conns.iter().enumerate() {
-        s.push_str(&format!("|| conn{ci}@{}ms ", c.start_ms));
+        s.push_str(&format!("|| conn{ci}@{}ms accept={:?} ", c.start_ms, c.accept));
         for it in &c.items {
             match &it.what {
                 TWhat::Wf { req, plan, sentinel } => s.push_str(&format!("| +{}ms {}{} split={:?} plan(delay={} {:?} target={:?}) ", it.gap_ms, if *sentinel { "SENTINEL " } else { "" }, req.show(), it.splits, plan.delay_ms, plan.kind, plan.shape.target)),
@@ -716,6 +843,24 @@ fn show_tcp(case: &TcpCase) -> String {
         }
     }
     s
+}
+
+fn run_stream_hist(data: &[u8], ctx: &mut Ctx) -> CaseResult {
+    let mut u = Unstructured::new(data);
+    let case = tcp_case_ext(&mut u, true);
+    ctx.sample(|| show_tcp(&case));
+    if case.reconf_at_ms.is_some() {
+        ctx.class("tcp:reconfigure");
+    }
+    if case.hook {
+        ctx.class("tcp:pre-connect-hook");
+    }
+    let obs = run_tcp(&case);
+    let r = check_tcp(&case, &obs, ctx);
+    if tcp_nontrivial(&case, ctx) {
+        ctx.nontrivial(&fnv(&format!("{case:?}")));
+    }
+    r
 }
 
 fn run_stream(data: &[u8], ctx: &mut Ctx) -> CaseResult {
@@ -775,6 +920,23 @@ fn health(c: &BTreeMap<String, u64>, _thorough: bool) -> Result<(), String> {
         "udp:edns-size:<512",
         "udp:edns-size:512",
         "udp:edns-size:>4096",
+        // sub-checks dgram_hist / stream_hist
+        "udp:reconfigure:limit-changed",
+        "udp:edns-request-after-reconfigure",
+        "udp:recv-buf:larger",
+        "udp:recv-buf:smaller",
+        "udp:send-not-ready-at-first",
+        "hostile:qr-twist",
+        "hostile:big-question-section",
+        "hostile:qr-with-opt-above-configured:echo-exceeds-configured",
+        "hostile:cut-by-recv-buf",
+        "tcp:accept-delayed",
+        "tcp:accept-never-completes",
+        "tcp:accept-future-fails",
+        "tcp:poll-accept-fails",
+        "tcp:connection-after-stalled-accept",
+        "tcp:reconfigure",
+        "tcp:pre-connect-hook",
     ] {
         if c.get(k).copied().unwrap_or(0) < 10 {
             return Err(format!("class {k} starved ({} cases)", c.get(k).copied().unwrap_or(0)));
@@ -786,18 +948,21 @@ fn health(c: &BTreeMap<String, u64>, _thorough: bool) -> Result<(), String> {
 pub fn prop() -> Option<Prop> {
     Some(Prop {
         id: "C16",
-        rule: "a scenario is non-trivial if at least one response needed truncation, or at least two pipelined requests on one connection completed out of order, or at least one hostile input was followed by a sentinel well-formed request (distinct by the decoded scenario)",
+        rule: "a scenario is non-trivial if at least one response needed truncation, or at least two pipelined requests on one connection completed out of order, or at least one hostile input (a hostile message, or a connection whose establishment never completes or fails) was followed by a sentinel well-formed request (distinct by the decoded scenario)",
         assumptions: &[
             "mock sockets (recording AsyncDgramSock, tokio::io::duplex behind a mock AsyncAccept), current-thread tokio runtime with paused clock: no kernel buffers, no real TCP segmentation, no multi-threaded scheduling",
             "liveness is bounded: a response counts as missing if it has not arrived 2 s of virtual time after the slowest service plan of the scenario finished",
             "the harness service is the only service; responses it builds are valid messages (checked) made of A/TXT/NULL/private-type records without name compression",
+            "DgramServer::reconfigure is called only after everything sent so far has been received and 1 ms of virtual time before the next datagram; each request is judged against the limit configured when it was received",
             "configured UDP limit inside the documented range 512..=4096 or None; max_queued_responses >= 1 (0 makes tokio's mpsc::channel panic although the documentation allows it; configuration is outside the statement)",
             "well-formedness of outgoing messages is judged by the independent walker refimpl::wire",
         ],
         subchecks: vec![
-            SubCheck::new("dgram", run_dgram, 24_000, 500_000, 1200),
-            SubCheck::new("stream", run_stream, 16_000, 300_000, 1500),
+            SubCheck::new("dgram", run_dgram, 18_000, 400_000, 1200),
+            SubCheck::new("stream", run_stream, 11_000, 220_000, 1500),
             SubCheck::new("dgram_raw", run_dgram_raw, 20_000, 500_000, 1300),
+            SubCheck::new("dgram_hist", run_dgram_hist, 10_000, 200_000, 1300),
+            SubCheck::new("stream_hist", run_stream_hist, 7_000, 140_000, 1600),
         ],
         health: Some(health),
         extra: None,
@@ -821,7 +986,7 @@ mod tests {
             frame.extend_from_slice(&m);
         }
         let items = vec![TItem { gap_ms: 0, splits: vec![], chunk_gap_ms: 0, what: TWhat::Hostile { frame, id: None, tags: vec!["burst"], doomed: false } }];
-        let case = TcpCase { cookies: false, idle_ms: 30_000, max_queued: 1, cap: 65536, conns: vec![Conn { start_ms: 0, addr: SocketAddr::from(([198, 51, 100, 1], 20000)), items }] };
+        let case = TcpCase { cookies: false, idle_ms: 30_000, max_queued: 1, cap: 65536, reconf_at_ms: None, hook: false, conns: vec![Conn { start_ms: 0, addr: SocketAddr::from(([198, 51, 100, 1], 20000)), accept: Accept::Ready, items }] };
         let obs = run_tcp(&case);
         let (frames, rest) = split_frames(&obs.conns[0].bytes);
         eprintln!("service calls: {}, responses on the wire: {}, rest {}", obs.calls.len(), frames.len(), rest.len());
